@@ -7,8 +7,9 @@
    one on every case).  The tolerance theorems are about the model of Go's arithmetic in
    Cmp/Tolerance.v (int64 wrap-around, AsTime / AsDuration, exact rationals for finite floats). *)
 From Coq Require Import QArith.
-From SC Require Import Base.Prelude Cmp.Cmp Cmp.Logic Cmp.Tolerance Cmp.Spec Cmp.LogicProofs Cmp.ToleranceProofs
-  Cmp.CmpProofs Cmp.C16Judge Cmp.JudgeProofs Resource.Impl Resource.Pull Resource.PullProofs.
+From SC Require Import Base.Prelude Cmp.Cmp Cmp.Logic Cmp.Tolerance Cmp.GoTime Cmp.Spec Cmp.LogicProofs Cmp.ToleranceProofs
+  Cmp.GoTimeProofs Cmp.CmpProofs Cmp.CollEquiv Cmp.CollEquivProofs Cmp.C16Judge Cmp.TreeProofs Cmp.JudgeProofs
+  Resource.Impl Resource.Pull Resource.PullProofs.
 Open Scope Z_scope.
 
 (* ---- the default comparer is proto.Equal, modulo change_time in Change messages ---- *)
@@ -83,26 +84,55 @@ Theorem C16_float_special_values_v0_refuted :
   fl_approx_gen true (1#2) 0 (FInf false) (FInf true) = true.
 Proof. exact float_v0_refuted. Qed.
 
-(* ---- TimeValueWithin ---- *)
-Theorem C16_time_reflexive : forall d x, 0 <= d ->
-  says (time_within d) x x = true \/ answers (time_within d) x x = false.
-Proof. exact time_reflexive. Qed.
+(* ---- TimeValueWithin (time.Unix, Before, Sub, Add, Equal as Go computes them: Cmp/GoTime.v) ---- *)
+Theorem C16_time_reflexive : forall d x, 0 <= d <= max_dur ->
+  says (time_within_fixed d) x x = true \/ answers (time_within_fixed d) x x = false.
+Proof. exact time_fixed_reflexive. Qed.
 
-Theorem C16_time_symmetric : forall d x y, time_within d x y = time_within d y x.
-Proof. exact time_symmetric. Qed.
+Theorem C16_time_symmetric : forall d x y, time_within_fixed d x y = time_within_fixed d y x.
+Proof. exact time_fixed_symmetric. Qed.
 
+(* every tolerance a time.Duration can express, math.MaxInt64 included *)
 Theorem C16_time_accepts_iff_within : forall d tx ux fx ty uy fy,
-  0 <= d < max_dur -> tx = ts_full -> ty = ts_full ->
+  0 <= d <= max_dur -> tx = ts_full -> ty = ts_full ->
   Z.abs (get_int "seconds" fx) <= 1152921504606846976 -> -2147483648 <= get_int "nanos" fx <= 2147483647 ->
   Z.abs (get_int "seconds" fy) <= 1152921504606846976 -> -2147483648 <= get_int "nanos" fy <= 2147483647 ->
-  time_within d (CM tx true fx ux) (CM ty true fy uy) =
+  time_within_fixed d (CM tx true fx ux) (CM ty true fy uy) =
   (Z.abs (total_nanos fx - total_nanos fy) <=? d, true).
-Proof. exact time_accepts_iff_within. Qed.
+Proof. exact time_fixed_accepts_iff_within. Qed.
 
 Theorem C16_time_only_own_kind : forall d x y,
-  answers (time_within d) x y = true ->
+  answers (time_within_fixed d) x y = true ->
   exists tx vx fx ux ty vy fy uy, x = CM tx vx fx ux /\ y = CM ty vy fy uy /\ (tx = ts_full \/ ty = ts_full).
-Proof. exact time_only_own_kind. Qed.
+Proof. exact time_fixed_only_own_kind. Qed.
+
+(* Time.Sub as Go computes it (wrapping int64 product, u.Add(d).Equal(t), addSec saturation) is "the
+   exact difference if it fits a Duration, else saturated", on the whole int64 range of seconds *)
+Theorem C16_go_sub_is_saturating_difference : forall t u, wf_time t -> wf_time u ->
+  go_sub t u = (if in64 (time_diff t u) then time_diff t u else if time_before t u then min_dur else max_dur).
+Proof. intros t u Wt Wu. rewrite go_sub_is_time_sub by assumption. reflexivity. Qed.
+
+(* the kernel before /repo 4b183a5 (Sub(...) <= d in both orders): exact for d < MaxInt64 on ALL
+   pairs of times, in particular "false" in both argument orders for times more than 292 years apart *)
+Theorem C16_time_v0_exact_below_max : forall d xt yt, wf_time xt -> wf_time yt ->
+  0 <= d < max_dur -> time_close_go d xt yt = (Z.abs (time_diff xt yt) <=? d).
+Proof. exact time_close_go_exact. Qed.
+
+Theorem C16_time_v0_far_apart_rejected_both_orders : forall d xt yt, wf_time xt -> wf_time yt ->
+  0 <= d < max_dur -> Z.abs (time_diff xt yt) > max_dur ->
+  time_close_go d xt yt = false /\ time_close_go d yt xt = false.
+Proof. exact time_kernel_far_apart. Qed.
+
+(* ... but with d = math.MaxInt64 it accepted every pair of Timestamps (fixed in 4b183a5) *)
+Theorem C16_time_max_dur_v0_refuted :
+  (forall tx ux fx ty uy fy, tx = ts_full -> ty = ts_full ->
+     time_within_go max_dur (CM tx true fx ux) (CM ty true fy uy) = (true, true)) /\
+  time_within_go max_dur (ts_msg 0 0) (ts_msg 10000000000 0) = (true, true) /\
+  time_within_fixed max_dur (ts_msg 0 0) (ts_msg 10000000000 0) = (false, true) /\
+  time_within_fixed max_dur (ts_msg 10000000000 0) (ts_msg 0 0) = (false, true).
+Proof.
+  split; [exact time_within_go_max_dur_accepts_all|]. repeat split; vm_compute; reflexivity.
+Qed.
 
 (* ---- DurationValueWithin ---- *)
 Theorem C16_duration_reflexive : forall d x, 0 <= d ->
@@ -191,18 +221,84 @@ Section Resource.
   Proof. intros. apply equivalence_delivery. Qed.
 End Resource.
 
-(* Collection.Pull compares the old and the new value of EACH change, not the new value with what the
-   subscriber holds: under a non-transitive tolerance the item drifts 0 -> 1 -> 2 -> 3 in steps of 1,
-   every step is suppressed, and the subscriber still holds 0 although 3 is not equivalent to 0 *)
-Theorem C16_collection_tolerance_drift_refuted :
+(* ---- Collection.Pull with an equivalence (model: Cmp/CollEquiv.v, the code since /repo 3a50d70) ---- *)
+Section Collection.
+  Variable M : Type.
+  Variable rmask : Type.
+  Variable r_filter : rmask -> M -> M.
+
+  (* for EVERY history of one evolving collection, every comparer, read mask and include filter: a
+     change is delivered exactly when its new value (as the reader sees it) is NOT equivalent to the
+     value the subscriber holds for that id; [w] is what the subscriber holds, [h] the goroutine's map *)
+  Theorem C16_collection_delivers_iff_not_equivalent_to_held :
+    forall cmp (ro : ropts M rmask) evs (h : heldmap M) (w cur : view M),
+    held_inv h w (seen r_filter ro cur) -> ev_chained_from cur evs ->
+    c_forward_held r_filter (Some cmp) ro h evs = ideal_filter cmp w (offered r_filter ro evs).
+  Proof. intros. eapply coll_pull_held_exact; eassumption. Qed.
+
+  (* ... where "holds" is the new value of the last change delivered for the id *)
+  Theorem C16_collection_held_is_last_delivered : forall cmp cs (w : view M) (c : cchange M),
+    ideal_filter cmp w (cs ++ [c]) =
+    ideal_filter cmp w cs ++
+    (if cmp (holds_after w (ideal_filter cmp w cs) (cc_id c)) (cc_new c) then [] else [c]).
+  Proof. intros. apply ideal_last_delivered. Qed.
+
+  (* after the seed loop the map is the seed as sent *)
+  Theorem C16_collection_seeded : forall cmp (ro : ropts M rmask) (sd : list (cchange M)) evs (cur : view M),
+    (forall k, holds_after (fun _ => None) sd k = None -> seen r_filter ro cur k = None) ->
+    ev_chained_from cur evs ->
+    c_forward_held r_filter (Some cmp) ro (held_of_seeds sd) evs =
+    ideal_filter cmp (holds_after (fun _ => None) sd) (offered r_filter ro evs).
+  Proof. intros. eapply coll_pull_held_seeded; eassumption. Qed.
+
+  (* WithUpdatesOnly: the subscriber is taken to hold the collection as it was at subscription *)
+  Theorem C16_collection_updates_only : forall cmp (ro : ropts M rmask) evs (cur : view M),
+    ev_chained_from cur evs ->
+    c_forward_held r_filter (Some cmp) ro [] evs = ideal_filter cmp (seen r_filter ro cur) (offered r_filter ro evs).
+  Proof. intros. apply coll_pull_held_updates_only. assumption. Qed.
+
+  (* without an equivalence the loop is the one of Resource/Pull.v *)
+  Theorem C16_collection_no_equivalence_unchanged : forall (ro : ropts M rmask) evs h,
+    c_forward_held r_filter None ro h evs = c_forward_gen r_filter None false false ro evs.
+  Proof. intros. apply c_forward_held_none. Qed.
+
+  (* the code before the repair (old against new of each change) is the same function whenever the
+     comparer is an equivalence RELATION (WithNoDuplicates, cmp.Equal(), projections) *)
+  Theorem C16_collection_v0_right_for_equivalence_relations :
+    forall (cmp : option M -> option M -> bool),
+    (forall a, cmp a a = true) -> (forall a b, cmp a b = cmp b a) ->
+    (forall a b c, cmp a b = true -> cmp b c = true -> cmp a c = true) ->
+    forall (ro : ropts M rmask) evs (h : heldmap M) (w cur : view M),
+    held_inv h w (seen r_filter ro cur) -> (forall id, cmp (w id) (seen r_filter ro cur id) = true) ->
+    ev_chained_from cur evs ->
+    c_forward_gen r_filter (Some cmp) false false ro evs = c_forward_held r_filter (Some cmp) ro h evs.
+  Proof. intros. eapply c_forward_gen_is_held_for_equivalence_relations; eassumption. Qed.
+End Collection.
+
+(* ... and wrong for tolerances: the item drifts 0 -> 1 -> 2 -> 3 in steps of 1 under |a-b| <= 1, every
+   step is suppressed, and the subscriber still holds 0 although 3 is not equivalent to 0; the repaired
+   loop delivers 2 *)
+Theorem C16_collection_tolerance_drift_v0_refuted :
   ~ (forall (cmp : option Z -> option Z -> bool) (held : Z) (evs : list (cevent Z)),
        chained held evs ->
        c_forward_gen (fun (_ : unit) (m : Z) => m) (Some cmp) false false plain_ropts evs = [] ->
-       cmp (Some held) (Some (final held evs)) = true).
+       cmp (Some held) (Some (final held evs)) = true) /\
+  map (@cc_new Z) (c_forward_held (fun (_ : unit) (m : Z) => m) (Some within1) plain_ropts [("a"%string, Some 0)] drift_events)
+  = [Some 2].
 Proof.
+  split; [|vm_compute; reflexivity].
   intros H. destruct drift_witness as (C & F & N).
   specialize (H within1 0 drift_events C F). rewrite N in H. discriminate.
 Qed.
+
+(* ---- the whole-message acceptance clause, one theorem over message trees ---- *)
+(* for every pair of guarded possibly-nil message trees and every guarded configuration of
+   FloatValueApprox / TimeValueWithin / DurationValueWithin under Equal(...) or Equal(ValueOr(...)):
+   the verdict is the reference equality whose leaves are the tolerances in exact arithmetic *)
+Theorem C16_whole_message_is_ideal : forall e x y,
+  ecfg_guard e = true -> has_durp e = false -> tree_ok e x = true -> tree_ok e y = true ->
+  model_e e x y = ideal_e e x y.
+Proof. exact model_is_ideal. Qed.
 
 (* ---- non-vacuity ---- *)
 Definition nv_msg (d : Q) (nanos : Z) : cval :=
@@ -221,9 +317,9 @@ Proof. vm_compute. reflexivity. Qed.
 Example C16_nonvacuous_default :
   cmp_equal [] (Some (nv_msg (1#2) 5)) (Some (nv_msg (1#2) 5)) = true /\
   cmp_equal [] (Some (nv_msg (1#2) 5)) (Some (nv_msg (3#4) 7)) = false /\
-  cmp_equal [float_approx 0 (1#4); time_within 2] (Some (nv_msg (1#2) 5)) (Some (nv_msg (3#4) 7)) = true /\
-  cmp_equal [float_approx 0 (1#8); time_within 2] (Some (nv_msg (1#2) 5)) (Some (nv_msg (3#4) 7)) = false /\
-  cmp_equal [float_approx 0 (1#4); time_within 1] (Some (nv_msg (1#2) 5)) (Some (nv_msg (3#4) 7)) = false.
+  cmp_equal [float_approx 0 (1#4); time_within_fixed 2] (Some (nv_msg (1#2) 5)) (Some (nv_msg (3#4) 7)) = true /\
+  cmp_equal [float_approx 0 (1#8); time_within_fixed 2] (Some (nv_msg (1#2) 5)) (Some (nv_msg (3#4) 7)) = false /\
+  cmp_equal [float_approx 0 (1#4); time_within_fixed 1] (Some (nv_msg (1#2) 5)) (Some (nv_msg (3#4) 7)) = false.
 Proof. repeat split; vm_compute; reflexivity. Qed.
 Example C16_nonvacuous_stream :
   pull_model (EAnd [VFloat 0 (1#2)]) (Some (nv_msg 0 0)) [nv_msg (1#2) 0; nv_msg 1 0; nv_msg (3#2) 0] =
@@ -260,4 +356,15 @@ Print Assumptions C16_judge_sound_partial.
 Print Assumptions C16_judge_sound_default.
 Print Assumptions C16_resource_value_stream_exact.
 Print Assumptions C16_resource_equivalence_suppresses_exactly_equivalent.
-Print Assumptions C16_collection_tolerance_drift_refuted.
+Print Assumptions C16_collection_tolerance_drift_v0_refuted.
+Print Assumptions C16_go_sub_is_saturating_difference.
+Print Assumptions C16_time_v0_exact_below_max.
+Print Assumptions C16_time_v0_far_apart_rejected_both_orders.
+Print Assumptions C16_time_max_dur_v0_refuted.
+Print Assumptions C16_collection_delivers_iff_not_equivalent_to_held.
+Print Assumptions C16_collection_held_is_last_delivered.
+Print Assumptions C16_collection_seeded.
+Print Assumptions C16_collection_updates_only.
+Print Assumptions C16_collection_no_equivalence_unchanged.
+Print Assumptions C16_collection_v0_right_for_equivalence_relations.
+Print Assumptions C16_whole_message_is_ideal.
